@@ -7,13 +7,13 @@ from vlib.wsgi import FragStream, make_environ, call_app
 
 ID = 'C05'
 LEVEL = 'fault_enumeration'
-RULE = ('case = (payload, chunk sizes, per-chunk hex case / leading zeros / token extension, last-chunk extension, '
+RULE = ('case = (payload, chunk sizes, per-chunk hex case / leading zeros (0-3, and 14-40: size fields longer than any fixed-width parse) / token extension, last-chunk extension, '
         'trailers, buffer >= longest size line, read-fragmentation caps). Encoded by the harness encoder. For each '
         'encoding: (1) legal decode through _body_read and through WSGI must equal the payload; (2) EVERY strict prefix '
         'that ends before the complete zero-size chunk line must raise BodyParsingError (400 through WSGI); (3) each '
         'chunk CRLF deleted / replaced must be rejected; (4) every single-byte substitution in framing bytes '
         '(size lines, CRLFs, last chunk) by a sampled set of bytes must end in acceptance or BodyParsingError/4xx, '
-        'nothing else, and EVERY substitution inside the CRLF after chunk data must be rejected. evaluations = decoder runs. Non-trivial legal case = >=2 chunks or an extension/trailer or a '
+        'nothing else, every ACCEPTED body must have been ended by a consumed zero-size chunk line, and EVERY substitution inside the CRLF after chunk data must be rejected. evaluations = decoder runs. Non-trivial legal case = >=2 chunks or an extension/trailer or a '
         'chunk larger than the buffer under short reads; every (encoding, fault) pair counts as one distinct '
         'non-trivial fault case.')
 ASSUMPTIONS = ['the configured buffer is at least as long as the longest chunk-size line (the scanner bounds a size line by the buffer)',
@@ -31,10 +31,10 @@ def _strategy():
     return st.fixed_dictionaries({
         'payload': payload,
         'sizes': st.one_of(st.lists(st.integers(1, 6), min_size=1, max_size=10), st.lists(st.integers(1, 40), max_size=8)),
-        'spell': st.lists(st.fixed_dictionaries({'upper': st.booleans(), 'zeros': st.integers(0, 3)}), min_size=1, max_size=4),
+        'spell': st.lists(st.fixed_dictionaries({'upper': st.booleans(), 'zeros': st.one_of(st.integers(0, 3), st.integers(0, 3), st.sampled_from([14, 15, 16, 17, 24, 40]))}), min_size=1, max_size=4),
         'exts': st.lists(ext, min_size=1, max_size=3),
         'last_ext': st.one_of(st.just(''), st.text(TOK, min_size=1, max_size=5)),
-        'last_zeros': st.integers(0, 2),
+        'last_zeros': st.one_of(st.integers(0, 2), st.sampled_from([15, 16, 17, 30])),
         'trailers': st.lists(st.sampled_from(['X-A: b', 'Foo: bar', 'E:']), max_size=2),
         'final_crlf': st.booleans(),
         'buf_extra': st.one_of(st.integers(0, 3), st.integers(0, 40)),
@@ -65,6 +65,18 @@ def decode_direct(data, buf, pattern):
     body.seek(0)
     out = body.read()
     body.close()
+    # whatever was accepted must have been ended by a zero-size chunk line: the last line the decoder consumed denotes size 0
+    consumed = data[:stream.pos]
+    line = consumed[:-2] if consumed.endswith(b'\r\n') else consumed
+    line = line[line.rfind(b'\r\n') + 2:] if b'\r\n' in line else line
+    digits = line.replace(b'\r', b'').split(b';')[0].strip()
+    try:
+        zero = int(digits, 16) == 0
+    except ValueError:
+        zero = False
+    if not consumed.endswith(b'\r\n') or not zero:
+        raise CheckFailure(f'a body ({out[:60]!r}) was presented as complete although the decoder did not stop at a zero-size chunk line: it consumed {consumed[-40:]!r} '
+                           f'of {data[:160]!r} (buf={buf}, pattern={pattern})')
     return 'ok', out
 
 
@@ -222,7 +234,7 @@ def run(ctx):
     for name, case in load_corpus(ID):
         ctx.guarded(check_case, case)
         ctx.count('corpus')
-    n = 1500 if ctx.tier == 'quick' else 6000
+    n = 900 if ctx.tier == 'quick' else 6000
     ctx.hyp(_strategy(), check_case, n)
     if ctx.tier == 'thorough' and ctx.shard < 4:
         from vlib import fuzz
